@@ -30,7 +30,8 @@ type SrvQuery struct {
 	Q       int  `json:"q"`      // index into gen.Queries
 	Client  int  `json:"client"` // index into gen.Clients
 	EDNS    bool `json:"edns,omitempty"`
-	ECS     int  `json:"ecs,omitempty"` // 0 = none, else index+1 into srvECS
+	ECS     int  `json:"ecs,omitempty"`     // 0 = none, else index+1 into srvECS
+	BadVers bool `json:"badvers,omitempty"` // EDNS version 1: must be answered with BADVERS
 	SleepMs int  `json:"sleep_ms,omitempty"`
 }
 
@@ -288,7 +289,10 @@ func runSrv(t *testing.T, sc *SrvScenario, keep bool, res *core.Result, hooks *s
 						ecs = srvECS[(q.ECS-1)%len(srvECS)]
 					}
 					rec := &QRec{Client: ci, Idx: qi, Q: q, Stamp: -1}
-					rec.Req = gen.MakeQuery(q.Q, q.EDNS, ecs, uint16(1000*ci+qi+1))
+					rec.Req = gen.MakeQuery(q.Q, q.EDNS || q.BadVers, ecs, uint16(1000*ci+qi+1))
+					if q.BadVers {
+						rec.Req.IsEdns0().SetVersion(1)
+					}
 					wr := newRecWriter(gen.Clients[q.Client%len(gen.Clients)])
 					h.Queries = append(h.Queries, rec)
 					inflight++
@@ -310,6 +314,9 @@ func runSrv(t *testing.T, sc *SrvScenario, keep bool, res *core.Result, hooks *s
 						default:
 							rec.Stamp = -2
 						}
+					}
+					if rec.Resp != nil && rec.Resp.Id != rec.Req.Id {
+						res.Add("wrong-id", "wrong-id", fmt.Sprintf("client %d query %d: response id %d for request id %d", ci, qi, rec.Resp.Id, rec.Req.Id))
 					}
 					if len(wr.msgs) > 1 {
 						res.Add("double-write", "double-write", fmt.Sprintf("client %d query %d: %d messages written", ci, qi, len(wr.msgs)))
@@ -532,6 +539,7 @@ type srvDrawOpts struct {
 	periodic   bool
 	stats      bool
 	ecs        bool
+	badvers    bool
 }
 
 func drawSrv(rt *rapid.T, o srvDrawOpts) SrvScenario {
@@ -559,6 +567,9 @@ func drawSrv(rt *rapid.T, o srvDrawOpts) SrvScenario {
 		}
 		if o.ecs && rapid.IntRange(0, 3).Draw(rt, "has_ecs") == 0 {
 			q.ECS = rapid.IntRange(1, len(srvECS)).Draw(rt, "ecs")
+		}
+		if o.badvers && rapid.IntRange(0, 11).Draw(rt, "badvers") == 0 {
+			q.BadVers = true
 		}
 		return q
 	})
